@@ -75,7 +75,13 @@ def Cache.lookupByCommand (c : Cache) (now : Nat) (tag addr cmd : Str) : Option 
     | none => none
     | some e => if e.expired now then none else some e
 
+/-- `Invalidate` (fix D24: the mappings that lead to the identifier go also when no entry is left —
+    `lookupNonExpired` deletes an expired entry but not its mappings) -/
 def Cache.invalidate (c : Cache) (id : Str) : Cache :=
+  { sessions := c.sessions.filter (fun p => p.1 ≠ id), cmdMap := c.cmdMap.filter (fun p => p.2 ≠ id) }
+
+/-- `Invalidate` as it was before fix D24: nothing happens when no entry is filed under the identifier -/
+def Cache.invalidateLegacy (c : Cache) (id : Str) : Cache :=
   match c.get id with
   | none => c
   | some _ => { sessions := c.sessions.filter (fun p => p.1 ≠ id), cmdMap := c.cmdMap.filter (fun p => p.2 ≠ id) }
